@@ -442,6 +442,9 @@ _PROGRAMS = {}
 
 
 def load_program(config="all", force=False):
+    """facts of /repo's tree under a feature configuration; VERIF_CONFIG overrides the configuration a rule module asks
+    for (used by the thorough tier to re-run the same rules on the default-features build)"""
+    config = os.environ.get("VERIF_CONFIG") or config
     repo = repo_dir()
     key = (repo, config)
     if key not in _PROGRAMS or force:
